@@ -56,6 +56,7 @@ var flows = []*Flow{
 	{Name: "backchannel-tcp", Mode: "play", Proto: "tcp", BackChannel: true, Quick: true},
 	{Name: "tunnel-http-hs", Mode: "describe", Proto: "tcp", Handshake: true},
 	{Name: "tunnel-ws-hs", Mode: "describe", Proto: "tcp", Handshake: true},
+	{Name: "tls-hs", Mode: "describe", Proto: "tcp", Handshake: true},
 }
 
 func flowByName(n string) *Flow {
